@@ -385,8 +385,15 @@ func genPred(r *vk.RNG, d *Dataset, depth int) *Pred {
 		return p
 	}
 	l := wrap(genPred(r, d, depth-1))
-	rr := wrap(genPred(r, d, depth-1))
+	rawR := genPred(r, d, depth-1)
+	rr := wrap(rawR)
 	if r.Bool() {
+		// `x or y and z`: an unparenthesised and-chain on the RIGHT of `or` means or(x, and(y, z)) under
+		// every reading (conventional precedence, right recursion) and is pinned so by the suite; only
+		// `x and y or z` is left unasserted
+		if rawR.Kind == "and" && l.Kind != "and" && r.Bool() {
+			return &Pred{Kind: "or", L: l, R: rawR}
+		}
 		return &Pred{Kind: "or", L: l, R: rr}
 	}
 	sep := vk.Pick(r, []string{" and ", ", ", " "})
@@ -513,7 +520,7 @@ func compareEntries(model []Ent, got map[int64]flatEntry, compareLabels bool) st
 		if !ok {
 			return fmt.Sprintf("matching record ts=%d line=%q missing from the result", e.TS, e.Line)
 		}
-		if g.Line != e.Line {
+		if g.Line != e.Line && !e.LineAny {
 			return fmt.Sprintf("record ts=%d: line %q, expected %q", e.TS, g.Line, e.Line)
 		}
 		if !compareLabels {
